@@ -28,7 +28,7 @@ ASSUMPTIONS = [
 TIERS = {"quick": {"runs": 20000, "wall": 60}, "thorough": {"runs": 300000, "wall": 1500}}
 
 BEHAVIOURS = ["close_m1", "close_m3", "rst_m1", "rst_m3", "http4xx_m1", "http4xx_m3", "bad_sig", "wrong_id", "auth_m2", "auth_m4",
-              "busy_m2", "short_key", "silent_m1", "silent_m3", "garbage", "rst_after_verify", "fin_after_verify", "unknown_http"]
+              "busy_m2", "short_key", "silent_m1", "silent_m3", "garbage", "rst_after_verify", "fin_after_verify", "unknown_http", "sub_reply_no_status"]
 ADDRS = ["10.0.0.1", "10.0.0.2", "fd00::3", "10.0.0.4", "fe80::5%eth0"]
 
 
@@ -43,7 +43,7 @@ def gen_plan(seed: int, tier: str, focus: str = "c10") -> dict:
         kinds[r.randrange(n_hosts)] = "genuine"
     enabled = r.sample(BEHAVIOURS, r.choice([0, 1, 2, 3, 5, len(BEHAVIOURS)]))
     if focus == "c11" and r.random() < 0.7:
-        enabled = list(set(enabled) | set(r.sample(["bad_sig", "auth_m4", "busy_m2", "short_key", "garbage", "http4xx_m3", "silent_m3", "auth_m2"], 3)))
+        enabled = list(set(enabled) | set(r.sample(["bad_sig", "auth_m4", "busy_m2", "short_key", "garbage", "http4xx_m3", "silent_m3", "auth_m2", "sub_reply_no_status"], 3)))
     fault_w = r.choice([0.2, 0.5, 1.0, 3.0])
     beh = {"honest": 1.0}
     for b in enabled:
